@@ -190,6 +190,11 @@ def run_C08(ctx, R):
     helper.rule_helper(ctx, R)
     # "every search method" includes searching a char-wise automaton restored from its image: mapper pages, states, outputs
     ser.rule_ser(ctx, R)
+    # the two variants run the SAME generic NFA passes on different tries (labels = bytes vs characters): a defect in a pass shows
+    # on one side only when only that side's trie has the shape that triggers it
+    nfa.rule_outputs_pass(ctx, R, E.NR)
+    nfa.rule_fail_passes(ctx, R, E.NR)
+    nfa.rule_add(ctx, R, E.NR, rules={"VAL-ADD", "STAT-NS", "NFA-LF", "STAT-SHADOW"})
 
 
 def run_C09(ctx, R):
